@@ -431,11 +431,51 @@ def cmd_reality(argv):
     return 0 if not bad else 1
 
 
+EXPECTED_REACH = {
+    # fault kinds and probes that every quick batch must actually hit (fired, not merely configured): a workload edit
+    # that silently switches a fault family off (it happened: C12's fault-injecting saves lost their draw values
+    # to new operations) shows here
+    "C01": ["slow-spot", "late-item", "slow-functor", "late-exhaustion", "cond-between-put-and-cnt", "worker-retired"],
+    "C02": ["slow-spot", "late-exhaustion", "flow-control-paused-feeder", "consumer-waited-for-feeder-progress"],
+    "C03": ["slow-spot", "slow-create", "worker-retired", "replacement-started"],
+    "C04": ["begin-raises", "functor-raises", "slow-begin", "worker-retired"],
+    "C05": ["slow-spot", "slow-spot-delivery", "slow-functor"],
+    "C11": ["short-read", "interleaved-iteration", "custom-index-iteration"],
+    "C12": ["write-error", "torn-write", "short-write", "open-error", "read-EIO", "save", "edit"],
+    "C14": ["torn-write", "write-error-transient", "write-error-persistent", "unencodable-text", "slow-spot", "iteration-over-gap"],
+    "C18": ["open-EMFILE", "iterator-across-fork", "grandchild", "interleaved-seek-read"],
+    "C20": ["exception-in-body", "external-delete", "failed-enter-then-retry", "file-vanished-before-remove",
+            "disk-full-at-close", "slow-spot", "real-fork"],
+}
+
+
+def cmd_reach(argv):
+    """Read the evidence files of the last quick runs: every expected fault kind / probe must have a non-zero count."""
+    bad = 0
+    for prop, names in sorted(EXPECTED_REACH.items()):
+        path = os.path.join(runner.VERIF_DIR, "evidence", prop + ".json")
+        try:
+            cov = json.load(open(path))["coverage"]
+        except Exception as e:  # noqa
+            print(f"reach {prop}: no evidence ({e})")
+            bad += 1
+            continue
+        seen = dict(cov.get("probes", {}))
+        seen.update(cov.get("fault_kinds_fired", {}))
+        zero = [n for n in names if not seen.get(n)]
+        bad += bool(zero)
+        print(f"reach {prop}: " + ("OK " + ", ".join(f"{n}={seen[n]}" for n in names) if not zero else "AT ZERO: " + ", ".join(zero)))
+    print("reach: " + ("every expected fault kind and probe was hit" if not bad else f"{bad} checks have fault kinds or probes at zero"))
+    return 0 if not bad else 1
+
+
 def main(argv):
     if not argv:
         print(__doc__)
         return 2
     cmd = argv[0]
+    if cmd == "reach":
+        return cmd_reach(argv[1:])
     if cmd == "digests":
         return cmd_digests(argv[1:])
     if cmd == "determinism":
